@@ -88,6 +88,12 @@ def heap_effects(stmts, eng):
                     if any(c.assigns for c in cs) or (f.attr in eng.reg.opaque and not eng.reg.opaque[f.attr].get("pure")):
                         whole[0] = True
             nm = f.attr if isinstance(f, ast.Attribute) else f.id if isinstance(f, ast.Name) else None
+            if nm == "setattr" and isinstance(f, ast.Name) and n.args:
+                b = base_name(n.args[0])
+                if b:
+                    names.add(b)
+                else:
+                    whole[0] = True
             if nm in eng.reg.opaque and eng.reg.opaque[nm].get("log"):
                 names.add(eng.reg.opaque[nm]["log"])
             if isinstance(f, ast.Name):
@@ -99,6 +105,56 @@ def heap_effects(stmts, eng):
     for s in stmts:
         Vis().visit(s)
     return names, whole[0]
+
+
+def frame_goals(h_now, base_a, base_alloc, allowed, keyed=()):
+    """goals establishing that, relative to the heap version `base_a`, only the objects in `allowed` (z3 Int refs), the
+    attributes in `keyed` [(ref, key)] and objects allocated after `base_alloc` were written.  Store chains are walked
+    syntactically (one small goal per written object); an array that is not a store chain over the base version (a havoc in
+    between) gets the quantified frame formula."""
+    goals = []
+    idxs = []
+    seen = set()
+    broken = []
+    for n in HEAP_NAMES:
+        a = h_now.a[n]
+        while not a.eq(base_a[n]):
+            if z3.is_app(a) and a.decl().kind() == z3.Z3_OP_STORE:
+                rs = z3.simplify(a.arg(1))
+                if rs.get_id() not in seen:
+                    seen.add(rs.get_id())
+                    idxs.append(rs)
+                a = a.arg(0)
+            else:
+                broken.append(n)
+                break
+    k_ = z3.Const("k!", V)
+
+    def key_clause(r):
+        """object r is written at most at its listed attributes (lists untouched)"""
+        if not keyed:
+            return z3.BoolVal(False)
+        is_keyed = z3.Or([r == kr for kr, _ in keyed])
+        other_key = z3.And([z3.Implies(r == kr, k_ != kk) for kr, kk in keyed])
+        same = z3.And(h_now.a["llen"][r] == base_a["llen"][r], h_now.a["lel"][r] == base_a["lel"][r],
+                      z3.ForAll([k_], z3.Implies(other_key, z3.And(h_now.a["dhas"][r][k_] == base_a["dhas"][r][k_],
+                                                                   h_now.a["dval"][r][k_] == base_a["dval"][r][k_]))))
+        return z3.And(is_keyed, same)
+
+    for rs in idxs:
+        if any(rs.eq(z3.simplify(m)) for m in allowed):
+            continue
+        goals.append(("object written: %s" % str(rs)[:60], z3.Or([rs == m for m in allowed] + [rs >= base_alloc, rs < 0, key_clause(rs)])))
+    r_ = z3.Int("r!")
+    for n in broken:
+        cond = z3.And([r_ >= 0, r_ < base_alloc] + [r_ != m for m in allowed] + [r_ != kr for kr, _ in keyed])
+        goals.append(("heap array %s unchanged outside the frame" % n,
+                      z3.ForAll([r_], z3.Implies(cond, h_now.a[n][r_] == base_a[n][r_]), patterns=[h_now.a[n][r_]])))
+        if keyed and n in ("llen", "lel", "dhas", "dval"):
+            for kr, _ in keyed:
+                goals.append(("keyed object %s: heap array %s unchanged outside its listed attributes" % (str(kr)[:40], n),
+                              z3.Or([kr == m for m in allowed] + [key_clause(kr)])))
+    return goals
 
 
 class Verifier(Engine):
@@ -187,8 +243,16 @@ class Verifier(Engine):
             if u["after"] not in fx.used:
                 raise CheckerError("stale lemma use: no statement %r in %s" % (u["after"], c.func))
         nret = 0
+        frame_refs = None
+        if self.needs_frame_check(c):
+            frame_refs = self.parse_frame(c.assigns, entry.env, entry, fx)
+            rec["frame"] = "checked at every exit: only %s and objects allocated by the call are written" % (list(c.assigns) or "nothing")
         for kind, payload, s in outs:
             rec["paths"] += 1
+            if frame_refs is not None and kind in (NORMAL, RETURN, RAISE):
+                ln = getattr(s, "line", fsrc.node.lineno)
+                for what, g in frame_goals(s.heap, entry.heap.a, entry.heap.alloc, frame_refs[0], frame_refs[1]):
+                    self.emit(fx, "frame", ln, s, g, note="assigns %s: %s" % (list(c.assigns), what))
             if kind in (NORMAL, RETURN):
                 nret += 1
                 val = payload if kind == RETURN else tV(V.none)
@@ -201,6 +265,31 @@ class Verifier(Engine):
         if fx.nobl == 0:
             raise CheckerError("zero obligations generated for %s" % c.func)
         return rec
+
+    def needs_frame_check(self, c):
+        """the frame (`assigns`) of a contract is what its CALLERS assume; it is verified on the body whenever some other
+        function under contract (or ghost client) calls it, or the sidecar asks for it (frame=True)"""
+        if c.opts.get("value_mode") or "*" in c.assigns or c.opts.get("block"):
+            return False
+        if c.opts.get("frame"):
+            return True
+        if not hasattr(self, "_callee_names"):
+            names = set()
+            for c2 in self.reg.contracts.values():
+                if not c2.verify:
+                    continue
+                try:
+                    f2 = source.load_function(c2.file, c2.func)
+                except Exception:
+                    continue
+                for n in ast.walk(f2.node):
+                    if isinstance(n, ast.Call):
+                        nm = n.func.attr if isinstance(n.func, ast.Attribute) else n.func.id if isinstance(n.func, ast.Name) else None
+                        if nm:
+                            names.add((nm, c2.key))
+            self._callee_names = names
+        return any(nm == c.name and key != c.key for nm, key in self._callee_names) or \
+            any(nm == c.name and key == c.key for nm, key in self._callee_names)
 
     def sat_known(self, st):
         return self._check(st) != z3.unsat
@@ -659,7 +748,16 @@ class Verifier(Engine):
                 path_refs.append(V.rv(st.heap.dget(V.rv(toV(st.env[b])), V.s(z3.StringVal(at)))))
         h = st.heap
         refs = None
-        if vm:
+        sp_mod = getattr(self, "_cur_loop_spec", {}).get("modifies")
+        if sp_mod is not None and not vm:
+            # declared loop frame: exactly the listed objects (expressions evaluated at loop entry) are arbitrary after any
+            # number of iterations; CHECKED at every back edge (frame_goals): the body writes only to them or to new objects
+            mobjs, mkeyed = self.parse_frame(sp_mod, st.env, st, fx, old=fx.entry)
+            self.apply_frame_havoc(st, mobjs, mkeyed)
+            h = st.heap
+            st.ghost = dict(st.ghost)
+            st.ghost["_loop_frame:%d" % node.lineno] = (dict(h.a), h.alloc, tuple(mobjs), tuple(mkeyed))
+        elif vm:
             if free_keys:
                 raise OutOfSubset("value mode: keyed write through a re-bound receiver inside a loop (line %d)" % node.lineno)
             na = fresh("alloc", IntS)
@@ -788,7 +886,11 @@ class Verifier(Engine):
         hdr, sp = self.loop_spec(s, fx)
         self.check_invs("inv-init", sp, st, fx, s.lineno, st)
         hv = st.copy()
-        stable = self.havoc_loop(s, hv, fx)
+        self._cur_loop_spec = sp
+        try:
+            stable = self.havoc_loop(s, hv, fx)
+        finally:
+            self._cur_loop_spec = {}
         self.assume_invs(sp, hv, fx)
         ec = self.new_ec(hv, fx)
         c = simp(self.tb(self.ev(s.test, ec), ec))
@@ -837,6 +939,12 @@ class Verifier(Engine):
                 else:
                     raise OutOfSubset("loop variable %s changes kind %s -> %s" % (n, k, x.k))
         self.check_invs("inv-pres", sp, s2, fx, line, None, extra_bound)
+        if sp.get("modifies") is not None and not fx.contract.opts.get("value_mode"):
+            lf = s2.ghost.get("_loop_frame:%d" % line)
+            if lf is None:
+                raise CheckerError("loop frame record lost (line %d)" % line)
+            for what, g in frame_goals(s2.heap, lf[0], lf[1], list(lf[2]), list(lf[3])):
+                self.emit(fx, "loop-frame", line, s2, g, note="loop modifies only %s: %s" % (sp["modifies"], what))
         if sp.get("back"):
             # transition clauses: hold at the end of every iteration (they relate the state at the start of the iteration -
             # e.g. a `prev_...` variable the code keeps - to the state at its end); never assumed at the loop head
@@ -942,7 +1050,11 @@ class Verifier(Engine):
         bound0 = {iname: T("i", z3.IntVal(0)), nname: T("i", n)}
         self.check_invs("inv-init", sp, st, fx, s.lineno, st, bound0)
         hv = st.copy()
-        stable = self.havoc_loop(s, hv, fx, extra_names=assigned_names([ast.Expr(s.target)]) if False else _target_names(s.target))
+        self._cur_loop_spec = sp
+        try:
+            stable = self.havoc_loop(s, hv, fx, extra_names=_target_names(s.target))
+        finally:
+            self._cur_loop_spec = {}
         k = fresh("k", IntS)
         hv.assume(z3.And(k >= 0, k <= n))
         boundk = {iname: T("i", k), nname: T("i", n)}
